@@ -4,6 +4,7 @@ package main
 // report, write evidence.
 
 import (
+	"os/exec"
 	"encoding/json"
 	"flag"
 	"fmt"
@@ -154,13 +155,24 @@ func cmdCheck(args []string) {
 	}
 	t0 := time.Now()
 	timeout := 10
+	coverTimeout := 1
 	if *tier == "thorough" {
 		timeout = 60
+		coverTimeout = 10
+		thoroughMode = true
 	}
-	outDir := filepath.Join(verifRoot, "out", id)
+	// self-test runs (see selfTest): another source tree, scratch output, no evidence file
+	selftestRun := os.Getenv("OWVC_SELFTEST_REPO") != ""
+	workRoot := verifRoot
+	if selftestRun {
+		repoRoot = os.Getenv("OWVC_SELFTEST_REPO")
+		workRoot = os.Getenv("OWVC_SELFTEST_WORK")
+		thoroughMode = false
+	}
+	outDir := filepath.Join(workRoot, "out", id)
 	os.RemoveAll(outDir)
 	os.MkdirAll(outDir, 0o755)
-	replayDir := filepath.Join(verifRoot, "replays", id)
+	replayDir := filepath.Join(workRoot, "replays", id)
 	os.RemoveAll(replayDir)
 	os.MkdirAll(replayDir, 0o755)
 
@@ -304,7 +316,7 @@ func cmdCheck(args []string) {
 	var wgk sync.WaitGroup
 	wgk.Add(2)
 	go func() { defer wgk.Done(); resKnown = dischargeAll(oblsKnown, outDir, 3) }()
-	go func() { defer wgk.Done(); resCover = dischargeAll(oblsCover, outDir, 1) }()
+	go func() { defer wgk.Done(); resCover = dischargeAll(oblsCover, outDir, coverTimeout) }()
 	res := dischargeAll(oblsMain, outDir, timeout)
 	wgk.Wait()
 	// one retry with a longer limit for undecided obligations
@@ -350,9 +362,16 @@ func cmdCheck(args []string) {
 	knownPrinted := map[string]bool{}
 	var knownLines []string
 	var witnessOut []string
+	nSecond, nClash := 0, 0
 	for _, r := range res {
 		o := r.O
 		solverMs += r.Ms
+		if r.Second > 0 {
+			nSecond++
+		}
+		if r.Clash != "" {
+			nClash++
+		}
 		oo := oblOut{shortName(o.Name), o.Kind, o.Text, strings.TrimPrefix(o.Pos, repoRoot+"/"), r.Status, r.Solver, r.Ms, len(r.Query), ""}
 		if fcb := oblFC[o]; fcb != nil && fcb.BoundedNote != "" {
 			oo.Bound = fcb.BoundedNote
@@ -480,6 +499,22 @@ func cmdCheck(args []string) {
 		"contract_files":           relFiles(l.cs.Files),
 		"explanation":              spec.Explanation,
 		"rule":                     "one case = one proof obligation generated from /repo's current source by owvc and decided by an SMT solver",
+	}
+	if *tier == "thorough" && !selftestRun {
+		cov["second_opinions"] = map[string]interface{}{"obligations_confirmed_by_a_second_solver_or_variant": nSecond, "contradictions": nClash,
+			"meaning": "thorough tier: after the first definitive answer the other solvers get 3 s more on the same query; an unsat contradicted by a sat on the full query is not counted as discharged"}
+		cov["selftest"] = selfTest(id)
+	}
+	if selftestRun {
+		// result line only: the evidence of the real tree is not touched
+		fmt.Printf("owvc: selftest run on %s: %d obligations, %d discharged, %d violations\n", repoRoot, nObl, nDis, len(viol))
+		for _, v := range viol {
+			fmt.Printf("VIOLATION property=%s replay=%s\n", id, v.replay)
+		}
+		if len(viol) > 0 {
+			os.Exit(1)
+		}
+		os.Exit(0)
 	}
 	ev := map[string]interface{}{
 		"property_id": id,
@@ -632,4 +667,77 @@ func jsonSafe(v interface{}) interface{} {
 		return out
 	}
 	return v
+}
+
+// selfTest (thorough tier): every stored seeded change of this property
+// (/verif/seeded/<name>/, a change that is known to break the property and to
+// pass the repository's own tests) is applied to a scratch copy of /repo's
+// working tree and the quick check is run on that copy. The check must report
+// a violation there. The result is evidence about the check's sensitivity; it
+// never changes the verdict on the real tree. Scratch copies live under the
+// system temp directory and are removed before this function returns.
+func selfTest(id string) map[string]interface{} {
+	out := map[string]interface{}{"meaning": "stored seeded changes of this property applied to a scratch copy of the working tree; the quick check must report a violation on each"}
+	dirs, _ := filepath.Glob(filepath.Join(verifRoot, "seeded", "*", "meta.json"))
+	var detected, missed, stale []string
+	self, err := os.Executable()
+	if err != nil {
+		self = filepath.Join(verifRoot, "bin", "owvc")
+	}
+	for _, mf := range dirs {
+		b, err := os.ReadFile(mf)
+		if err != nil {
+			continue
+		}
+		var meta struct {
+			Name  string `json:"name"`
+			Props string `json:"breaks_property"`
+		}
+		if json.Unmarshal(b, &meta) != nil || meta.Props != id {
+			continue
+		}
+		seedDir := filepath.Dir(mf)
+		scratch, err := os.MkdirTemp("", "owvc_selftest_")
+		if err != nil {
+			continue
+		}
+		func() {
+			defer os.RemoveAll(scratch)
+			tree := filepath.Join(scratch, "repo")
+			if o, err := exec.Command("rsync", "-a", "--exclude", ".git", repoRoot+"/", tree+"/").CombinedOutput(); err != nil {
+				stale = append(stale, meta.Name+" (copy failed: "+truncate(string(o), 80)+")")
+				return
+			}
+			pc := exec.Command("patch", "-p1", "-s", "--no-backup-if-mismatch", "-i", filepath.Join(seedDir, "patch.diff"))
+			pc.Dir = tree
+			if _, err := pc.CombinedOutput(); err != nil {
+				stale = append(stale, meta.Name+" (patch no longer applies)")
+				return
+			}
+			cmd := exec.Command(self, "check", id, "--tier", "quick")
+			cmd.Env = append(os.Environ(), "OWVC_SELFTEST_REPO="+tree, "OWVC_SELFTEST_WORK="+filepath.Join(scratch, "work"), "VERIF_TIER=quick")
+			o, _ := cmd.CombinedOutput()
+			n := strings.Count(string(o), "\nVIOLATION ") + strings.Count(string(o), "VIOLATION property=")/1
+			if cmd.ProcessState != nil && cmd.ProcessState.ExitCode() == 1 && n > 0 {
+				first := ""
+				for _, ln := range strings.Split(string(o), "\n") {
+					if strings.HasPrefix(ln, "VIOLATION ") {
+						first = filepath.Base(strings.Fields(strings.SplitN(ln, "replay=", 2)[1])[0])
+						break
+					}
+				}
+				detected = append(detected, meta.Name+": "+strings.TrimSuffix(first, ".json"))
+			} else {
+				missed = append(missed, meta.Name)
+			}
+		}()
+	}
+	out["seeds"] = len(detected) + len(missed) + len(stale)
+	out["detected"] = detected
+	out["missed"] = missed
+	out["stale"] = stale
+	for _, m := range missed {
+		fmt.Printf("SELFTEST-MISSED: property=%s seeded change %s is not detected by this check (see not_covered)\n", id, m)
+	}
+	return out
 }
